@@ -26,10 +26,10 @@ def hash_groups():
                        what='cstl_clean_bucket against its flat contract on a chain of %d nodes: stamp set, other stamps kept, frame = bucket array + the detached nodes, one hash consultation per relocated node' % n,
                        scope='chain of exactly %d nodes in the bucket; bucket array of any size' % n,
                        covers=['end'] + (['abort'] if n else [])))
-    g('hash.rehash_n', ['C19', 'C03'], 'h_rehash_n', '__cstl_hash_rehash', replace=['cstl_clean_bucket'],
+    g('hash.rehash_n', ['C19', 'C03', 'C04'], 'h_rehash_n', '__cstl_hash_rehash', replace=['cstl_clean_bucket'],
       what='sweep: <= n dirty buckets cleaned, progress >= n or completion, completion installs the pending geometry, sweep invariant',
       shards=1, weight=2)
-    g('hash.rehash', ['C19', 'C03'], 'h_rehash', 'cstl_hash_rehash', replace=['__cstl_hash_rehash'],
+    g('hash.rehash', ['C19', 'C03', 'C04'], 'h_rehash', 'cstl_hash_rehash', replace=['__cstl_hash_rehash'],
       what='forced completion of a pending rehash; no-op otherwise')
     g('hash.get_bucket', ['C19', 'C03', 'C17'], 'h_get_bucket', 'cstl_hash_get_bucket',
       replace=['__cstl_hash_get_bucket', 'cstl_clean_bucket', '__cstl_hash_rehash'],
@@ -144,6 +144,8 @@ def memory_groups():
     g('get.empty', ['C05'], 'h_get', 'cstl_shared_ptr_get_const', 'get of an empty pointer is NULL', defines=['-DVF_SP_EMPTY'])
     g('sp_alloc', ['C05', 'C16'], 'h_sp_alloc', 'cstl_shared_ptr_alloc', 'shared alloc into an empty pointer: sole owner of fresh memory, or empty and nothing leaked under every allocation-failure subset',
       defines=['-DVF_SP_ALLOC'])
+    g('sp_alloc.occupied', ['C05', 'C16'], 'h_sp_alloc', 'cstl_shared_ptr_alloc', 'shared alloc onto a pointer that owns an allocation: that allocation is let go exactly as by reset for every requested size (also 0), then sole owner of fresh memory or empty',
+      defines=['-DVF_SP_ALLOC_OCCUPIED'], solver='kissat', timeout=900)
     for nm, h, fn, txt in (('sp_swap', 'h_sp_swap', 'cstl_shared_ptr_swap', 'shared swap: the two objects exchange their allocations (any pointers, also empty or the same allocation); no counter moves, nothing destroyed (the frame is the two objects)'),
                            ('wp_swap', 'h_wp_swap', 'cstl_weak_ptr_swap', 'weak swap: as shared swap'),
                            ('up_swap', 'h_up_swap', 'cstl_unique_ptr_swap', 'unique swap: memory, clear function and private pointer are exchanged together'),
